@@ -104,7 +104,7 @@ class Ctx:
         self.violations.append({"what": what, "signature": sig, "replay": str(path)})
         if key not in self._seen_sig or len(self.violations) <= 20:
             print(f"VIOLATION property={self.prop} replay={path}", flush=True)
-            print(f"  what: {what}", flush=True)
+            print("  what: " + what.encode("ascii", "backslashreplace").decode(), flush=True)
         self._seen_sig.add(key)
         return True
 
